@@ -465,6 +465,7 @@ def oracle_C16(ctx, i):
 
 def oracle_C17(ctx, i):
     I, meta = ctx.I[i], ctx.metas[i]
+    if meta.get("op") == "helper": return oracle_helper(I, meta)
     if meta.get("op") != "build": return []
     n = size_of(I)
     out = []
